@@ -127,6 +127,22 @@ func c19Family(name string, r *rand.Rand, thorough bool) *c19Scenario {
 		} else if r.Intn(2) == 0 {
 			sc.Threads = append(sc.Threads, []c19Op{c19Lookup("app." + b0 + ":80")})
 		}
+	case "stale-read":
+		// lookup1 on node 0 is held inside its record read; the owner deactivates /
+		// re-targets / deletes the mapping through node 1 and gets the acknowledgement;
+		// only then lookup2 starts on node 0 — it must see the acknowledged state
+		upd := []c19Op{
+			{K: "update", C: 101, Ref: 0, Upd: "inactive", Node: 1, Pin: true},
+			{K: "update", C: 101, Ref: 0, Upd: "port", Node: 1, Pin: true},
+			{K: "delete", C: 101, Ref: 0, Node: 1, Pin: true},
+			{K: "update", C: 101, Ref: 0, Upd: "past", Node: 1, Pin: true},
+		}[r.Intn(4)]
+		host := "app." + b0
+		sc.Setup = []c19Op{c19Create(101, "app", b0)}
+		sc.Threads = [][]c19Op{
+			{{K: "lookup", Host: host, Node: 0, Pin: true}},
+			{upd, {K: "lookup", Host: host + ":80", Node: 0, Pin: true, Strict: true}},
+		}
 	case "sweep-vs-claims":
 		// the production expiry sweep runs while other clients try to take a paused
 		// (inactive, unexpired) name, an expired name and an active name
@@ -321,18 +337,27 @@ type c19Exe struct {
 
 // c19RunSchedule executes sc under scheduler s and judges the quiescent state.
 func (x *c19Exe) start(sc *c19Scenario, s *vk.Sched) (after func(ok bool)) {
-	w := c19NewWorld(x.t, sc.Kind, x.rd, c19WorldOpts{})
+	staleRead := sc.Family == "stale-read"
+	w := c19NewWorld(x.t, sc.Kind, x.rd, c19WorldOpts{postRead: staleRead})
 	results := make([]c19Res, sc.nops)
 	for _, op := range sc.Setup {
-		op.Node = 0
+		if !op.Pin {
+			op.Node = 0
+		}
 		results[op.No] = c19Exec(w, op, results)
 	}
 	w.SetHook(vk.SchedHook(s))
+	if staleRead {
+		// a read of the shared tier that has sampled its value but not returned yet
+		w.SetPostHook(func(op, key string) { s.Yield("redis." + op + ":" + key) })
+	}
 	for ti, th := range sc.Threads {
 		th, ti := th, ti
 		s.Go(fmt.Sprintf("T%d", ti), func() {
 			for _, op := range th {
-				op.Node = ti
+				if !op.Pin {
+					op.Node = ti
+				}
 				results[op.No] = c19Exec(w, op, results)
 			}
 		})
@@ -340,9 +365,13 @@ func (x *c19Exe) start(sc *c19Scenario, s *vk.Sched) (after func(ok bool)) {
 	return func(ok bool) {
 		defer w.Close()
 		w.SetHook(nil)
+		w.SetPostHook(nil)
 		x.run.Eval(1)
 		trace := s.Trace()
-		if !ok || s.Stalls() > 0 {
+		// a thread judged "blocked off-gate" makes a schedule inconclusive — except in
+		// the stale-read family, where a lookup waiting for another lookup's read is
+		// exactly what is looked for and every thread still ran to completion (ok)
+		if !ok || (s.Stalls() > 0 && !staleRead) {
 			x.run.Count("sched_inconclusive", 1)
 			return
 		}
@@ -356,7 +385,56 @@ func (x *c19Exe) start(sc *c19Scenario, s *vk.Sched) (after func(ok bool)) {
 		if split {
 			x.run.Count("claims_split_counter_read_write", 1)
 		}
+		if staleRead {
+			x.run.Count("stale_read_schedules", 1)
+			if c19StaleWindow(trace) {
+				x.run.Count("stale_read_windows", 1)
+			}
+		}
+		x.judgeStrict(sc, results, trace)
 		x.judge(sc, w, results, trace)
+	}
+}
+
+// c19StaleWindow: the first lookup (T0) sampled the mapping record BEFORE the update
+// of T1 was written and returned from that read only AFTER T1's later lookup started.
+func c19StaleWindow(trace []string) bool {
+	iRead, iRet, iSet, iL2 := -1, -1, -1, -1
+	for i, e := range trace {
+		switch {
+		case strings.HasPrefix(e, "T0@redis.Get:tunnox:http_domain:mapping:") && iRead < 0:
+			iRead = i // released: the read executes now, then parks at Get.ret
+		case strings.HasPrefix(e, "T0@redis.Get.ret:tunnox:http_domain:mapping:") && iRet < 0:
+			iRet = i // released from the after-read gate: the value reaches the caller
+		case strings.HasPrefix(e, "T1@redis.Set:tunnox:http_domain:mapping:"):
+			iSet = i
+		case strings.HasPrefix(e, "T1@redis.Get:tunnox:http_domain:index:") && iSet >= 0 && iL2 < 0:
+			iL2 = i
+		}
+	}
+	return iRead >= 0 && iSet > iRead && iL2 > iSet && iRet > iL2
+}
+
+// judgeStrict: a lookup marked Strict is judged by the state at its start, which is
+// fully determined by what its own thread completed before it (interval rule: those
+// calls had RETURNED) — the scenario has no other writer.
+func (x *c19Exe) judgeStrict(sc *c19Scenario, results []c19Res, trace []string) {
+	for _, th := range sc.Threads {
+		prefix := append([]c19Res(nil), results[:len(sc.Setup)]...)
+		for _, op := range th {
+			r := results[op.No]
+			if op.K == "lookup" && op.Strict && r.Ran {
+				tr := c19Audit(prefix)
+				x.run.Count("strict_lookups", 1)
+				if r.Routed {
+					x.run.Count("strict_lookups_routed", 1)
+				}
+				if class, exp := c19JudgeRoute(tr, r); class != "" {
+					x.violation(class, sc, tr, trace, results, map[string]any{"phase": "lookup started after its thread's earlier calls returned", "lookup": r, "expected_owner": exp})
+				}
+			}
+			prefix = append(prefix, r)
+		}
 	}
 }
 
@@ -635,6 +713,52 @@ func TestVerifC19Schedules(t *testing.T) {
 			}
 		}
 	}
+	// stale reads: only meaningful with two repositories on one shared store
+	for vi := 0; vi < 4 && !x.stop; vi++ {
+		sc := c19Family("stale-read", rnd, thorough)
+		sc.Threads[1][0] = []c19Op{
+			{K: "update", C: 101, Ref: 0, Upd: "inactive", Node: 1, Pin: true},
+			{K: "update", C: 101, Ref: 0, Upd: "port", Node: 1, Pin: true},
+			{K: "delete", C: 101, Ref: 0, Node: 1, Pin: true},
+			{K: "update", C: 101, Ref: 0, Upd: "past", Node: 1, Pin: true},
+		}[vi]
+		sc.number()
+		sc.Kind = "hybrid-2node"
+		run.Case("stale-read|"+sc.Threads[1][0].K+sc.Threads[1][0].Upd, sc)
+		if vi == 0 {
+			run.Sample(sc)
+		}
+		for first := 0; first < 2; first++ {
+			for k := 1; k <= 30 && !x.stop; k++ {
+				ch := &c19Pause{First: fmt.Sprintf("T%d", first), K: k, Rest: []string{fmt.Sprintf("T%d", 1-first)}}
+				s := vk.NewSched(ch)
+				after := x.start(sc, s)
+				ok := s.Run(maxSteps)
+				s.Stop()
+				after(ok)
+				run.Count("pause_schedules", 1)
+				if ch.Exhausted {
+					break
+				}
+			}
+		}
+		st := vk.Explore(2, run.Pick(40, 1500), maxSteps, func(s *vk.Sched) func(bool) {
+			if x.stop {
+				return nil
+			}
+			return x.start(sc, s)
+		})
+		run.Count("explore_runs", int64(st.Runs))
+		for i := 0; i < run.Pick(10, 300) && !x.stop; i++ {
+			s := vk.NewSched(c19Sticky{R: rand.New(rand.NewSource(rnd.Int63())), P: 0.2})
+			after := x.start(sc, s)
+			ok := s.Run(maxSteps)
+			s.Stop()
+			after(ok)
+		}
+	}
+	run.Floor("stale_read_windows", 8)
+	run.Floor("strict_lookups", 100)
 	run.Floor("schedules", int64(run.Pick(400, 8000)))
 	run.Floor("claims_overlap_incr_setnx", 50)
 	// claims_split_counter_read_write (a second claim reads the id counter between the
@@ -1042,6 +1166,28 @@ func TestVerifC19HostSpellings(t *testing.T) {
 			for i := 0; i < nLive; i++ {
 				do(c19Create(int64(101+i), subs[i], c19Bases[rnd.Intn(2)]))
 			}
+			// names that differ only in letter case, held by DIFFERENT clients at the same
+			// time (claims are verbatim); a tree that normalises at claim time refuses the
+			// second one and the case is vacuous (counted)
+			cv := [][]string{{"MyApp", "myapp", "MYAPP"}, {"Shop", "shop"}, {"api-V2", "API-v2"}}[rnd.Intn(3)]
+			coexist := 0
+			for i, sub := range cv {
+				if r := do(c19Create(int64(401+i), sub, c19Bases[0])); r.OK {
+					coexist++
+				}
+			}
+			if coexist >= 2 {
+				run.Count("case_variant_names_coexisting", int64(coexist))
+			} else {
+				run.Count("case_variant_claims_refused", int64(len(cv)-coexist))
+			}
+			// a full domain with a trailing dot cannot be claimed: the base domain must be
+			// one of the configured ones verbatim
+			if r := do(c19Create(450, "dotted", c19Bases[0]+".")); r.OK {
+				run.Count("trailing_dot_claims_accepted", 1)
+			} else {
+				run.Count("trailing_dot_claims_refused", 1)
+			}
 			// one deleted, one inactive, one expired (by time), one expired (status)
 			special := []string{"gone", "paused", "lapsed", "expired"}
 			for i, s := range special {
@@ -1108,6 +1254,9 @@ func TestVerifC19HostSpellings(t *testing.T) {
 							if r.Routed {
 								run.Count("lookups_routed", 1)
 								run.Count("routed_class_"+hc.Class, 1)
+								if hc.Class == "exact" && name != strings.ToLower(name) {
+									run.Count("routed_exact_mixedcase_names", 1)
+								}
 							}
 							run.Distinct(fmt.Sprintf("%s|%s|%v", kind, hc.Class, r.Routed))
 							if class, exp := c19JudgeRoute(tr, r); class != "" {
@@ -1134,6 +1283,11 @@ func TestVerifC19HostSpellings(t *testing.T) {
 	run.Floor("lookups_routed", 300)
 	run.Floor("routed_class_port65535", 20)
 	run.Floor("lookups_of_nonrouting_names", 50)
+	// non-vacuity of the case-variant pairs on a tree that claims names verbatim; a tree
+	// that normalises at claim time shows case_variant_claims_refused instead
+	if run.Counter("case_variant_claims_refused") == 0 {
+		run.Floor("routed_exact_mixedcase_names", 40)
+	}
 }
 
 // ---------------------------------------------------------------- monitor 4: single storage faults
